@@ -8,6 +8,14 @@ Final == d.pc \in {"top", "dead"} /\ (d.topn = MaxTop \/ d.pc = "dead")
 ExportInv ==
   Final => PrintT(<<"CASE", ToJson([script |-> script, hist |-> hist, elog |-> elog])>>)
 
+\* slab-focused export: only programs in which a slab child died next to a sibling
+SlabInteresting ==
+  \E a \in DOMAIN d.actors :
+     /\ d.actors[a].slabOf # 0 /\ d.actors[a].bits = "zombie"
+     /\ \E b \in DOMAIN d.actors : b # a /\ d.actors[b].slabOf = d.actors[a].slabOf
+ExportInvS ==
+  (Final /\ d.race) => PrintT(<<"CASE", ToJson([script |-> script, hist |-> hist, elog |-> elog])>>)
+
 Ops_All == {"defer", "lazy", "idle", "after", "acreate", "call", "pcall", "callown", "stop", "fail",
             "owndrop", "ownclone", "keepown", "kill", "mkret", "ret", "retdrop", "keepret", "zombie",
             "run", "dropstakker"}
@@ -21,4 +29,18 @@ Ops_ATopAll == {"acreate", "call", "pcall", "callown", "owndrop", "ownclone", "k
                 "mkret", "ret", "retdrop", "defer"}
 Ops_AMethAll == {"stop", "fail", "call", "pcall", "defer", "keepown", "owndrop", "ret", "retdrop", "keepret", "acreate"}
 Ops_AMeth == {"stop", "fail", "call", "pcall", "defer"}
+\* query!-focused: synchronous queries against every lifecycle state, mixed with queued calls and kills
+Ops_YTop == {"acreate", "query", "call", "pcall", "kill", "owndrop", "run", "zombie"}
+Ops_YBody == {"query", "defer"}
+Ops_YMeth == {"stop", "fail", "call"}
+\* ActorOwnSlab-focused: children created from methods, dying while the parent keeps adding
+Ops_STop == {"acreate", "call", "owndrop", "kill", "run", "slablen"}
+Ops_SBody == {"call"}
+Ops_SMeth == {"screate", "stop", "fail", "call"}
+\* Actor::defer-focused: deferring through actor references in every state and from the value's Drop
+Ops_DTop == {"acreate", "call", "adefer", "owndrop", "kill", "run", "dropstakker"}
+Ops_DBody == {"adefer"}
+Ops_DMeth == {"vdefer", "adefer", "stop", "fail"}
+Ops_ATopY == Ops_ATopAll \cup {"query"}
+Ops_ABodyY == Ops_ABody \cup {"query"}
 =============================================================================
